@@ -201,13 +201,15 @@ def gen_sig(seed, k):
     if k == 1: S, G, second, phase = 2, 1200, 2, "running"
     gap2 = 250
     tests = []
-    kinds = ["run_die", "run_ign", "run_late", "delay", "drain", "done", "run_ign"]
-    n = rng.randrange(2, 5)
+    kinds = ["run_die", "run_ign", "run_late", "delay", "drain", "done", "run_ign", "run_retry"]
+    n = rng.randrange(2, 5) if k > 1 else 5
     for i in range(n):
         b, pkg = BINS[i % 2]          # t_three is reserved for the unit under timeout termination
-        kind = rng.choice(kinds) if k > 1 else ["run_ign", "run_die", "delay", "done"][i % 4]
-        name = f"{kind}_{i}"
+        kind = rng.choice(kinds) if k > 1 else ["run_ign", "run_die", "delay", "done", "run_retry"][i % 5]
+        name = f"{kind}_{i}" if kind != "run_retry" else f"delay_run_{i}"
         if kind == "run_die": acts = {"*": [f"onsig:{S}:0:0", "hang"]}
+        # fails on the forwarded signal while it still has a retry (with a 2.5 s delay) left: the retry delay must not be sat out
+        elif kind == "run_retry": acts = {"*": [f"onsig:{S}:1:0", "hang"]}
         elif kind == "run_ign": acts = {"*": [f"ignore:{S}", "child:20000", "hang"]}
         elif kind == "run_late": acts = {"*": [f"onsig:{S}:3:{G // 2}", "hang"]}
         elif kind == "delay": acts = {"1": ["exit:1"], "2": ["work:50", "exit:0"]}
@@ -271,11 +273,17 @@ def mon_sig(sc, r):
             continue
         if not ps: out.append(dict(mix.viol(sc, r, "machinery", f"{t['name']} never ran"), machinery=True)); continue
         p = ps[0]
+        retry_unit = kind == "run_retry"
+        if retry_unit:
+            if len(ps) != 1: V("retry-after-signal", f"test {t['name']}: {len(ps)} attempts ran; it failed on the shutdown signal, the retry must not start")
+            kind = "run_die"
         if kind == "drain": continue      # exited long before; nothing is forwarded while draining, the unit ends within the leak timeout
         if p.get("end") and p["end"][1] <= t1: continue
         sigs = [(s, ms(ns - t1)) for (ns, s) in p["sigs"]]
         if t.get("script"): fin_ns = next((ns for (ns, k, d) in r.events if k == "SetupScriptFinished"), None)
         else: fin_ns = next((ns for (ns, k, d) in r.events if k == "TestFinished" and d.split(" ")[0] == key_of(t["bin"], t["pkg"], t["name"])), None)
+        # a unit whose attempt failed with a retry left reports that attempt and then, its retry refused, nothing more
+        if retry_unit and fin_ns is None: fin_ns = next((ns for (ns, k, d) in r.events if k == "TestAttemptFailedWillRetry" and d.split(" ")[0] == key_of(t["bin"], t["pkg"], t["name"])), None)
         if kind == "term_timeout":
             if fin_ns is None or ms(fin_ns - t1) > SLACK_HI: V("kill-while-terminating", f"unit under timeout termination (grace 1500 ms) was not killed at once by the shutdown signal: finished {'never' if fin_ns is None else '%.0f ms after it' % ms(fin_ns - t1)}")
             if S != 15 and [s for (s, _) in sigs if s == S]: V("kill-while-terminating", f"unit under timeout termination received {sigs}; a shutdown while terminating must send SIGKILL, not forward the signal")
